@@ -89,7 +89,8 @@ Definition dump_verdict (hook : bool) (h h' : heap) (phi : list (Z * Z)) (roots 
 
 (* ---- whole runtime through the verif hook ---- *)
 Definition rt_eqb (a b : runtime) : bool :=
-  (rt_global a =? rt_global b) && zlist_eqb (rt_fields a) (rt_fields b) && (rt_eval a =? rt_eval b).
+  (rt_global a =? rt_global b) && zlist_eqb (rt_fields a) (rt_fields b) && (rt_eval a =? rt_eval b)
+  && zlist_eqb (rt_cfg a) (rt_cfg b).
 
 (* observable outcome of Copy(): None = panic; Some b = returned, and b says
    whether the result is the isomorphic image of the original, runtime record included *)
